@@ -123,6 +123,32 @@ def confirm_rejection(binary, shard, rej, wd, n, module, cfg, watchdog=10):
     return payload
 
 
+def with_via(scripts, rnd, p=0.5):
+    """Copies of the scripts in which a seed-chosen share of the operations goes through the second connection."""
+    out = []
+    for sc in scripts:
+        out.append([dict(op, via=2) if op.get("op") != "reopen" and rnd.random() < p else dict(op) for op in sc])
+    return out
+
+
+def model_check_multiconn(wd, mc_stats, max_calls=4):
+    """MultiConn.tla: Coherent on the bounded instance; the per-connection-cache variant must be reported."""
+    consts = {"ValidNames": {"a"}, "InvalidNames": {""}, "DupPolicy": "reject", "PosPolicy": "tail", "Conns": {1, 2},
+              "Caching": "none", "MaxId": 3, "MaxCalls": max_calls}
+    cfg = vlib.cfg_text(None, consts, invariants=["TypeOK", "ForestInv", "MemInv", "Coherent"], init_next=("MInit", "MNext"))
+    rc, outp = vlib.run_tlc("MultiConn", cfg, wd, "multiconn", workers=4, timeout=1800)
+    res = vlib.parse_tlc(outp)
+    if not res["ok"]:
+        raise vlib.ToolFailure("MultiConn: rc=%s %s (see %s)" % (rc, res["errors"][:2] or res["fatal"], outp))
+    mc_stats.append({"instance": "MultiConn(2 connections, ids<=3, calls<=%d)" % max_calls, "states": res["states"] or 0,
+                     "transitions": res["generated"] or 0})
+    cfg2 = vlib.cfg_text(None, dict(consts, Caching="own-writes"), invariants=["Coherent"], init_next=("MInit", "MNext"))
+    rc2, outp2 = vlib.run_tlc("MultiConn", cfg2, wd, "multiconn_cache", workers=2, timeout=900)
+    r2 = vlib.parse_tlc(outp2)
+    if not (r2["errors"] and not r2["fatal"]):
+        raise vlib.ToolFailure("MultiConn is insensitive: Caching = own-writes was not reported (see %s)" % outp2)
+
+
 def describe(rec):
     if not rec:
         return "?"
